@@ -645,3 +645,5 @@ def run(ctx, rep):
     # the re-assembly after the sort hands every declaration on (a dropped POU takes its violations with it)
     from rules.c03 import rule_merge
     rule_merge(ctx, rep, rid="R-C02-merge")
+    from rules import c03_allwalks
+    c03_allwalks.run(ctx, rep, rid="R-C02-allwalks")
